@@ -99,7 +99,13 @@ class ConnMan:
 
         This method should be called if `Bus.set()` or `Bus.alter()` is called.
         """
+        # keep the changes recorded earlier that have not been acted upon yet
+        pending_off = self.changes['off'].copy() if self.is_needed else None
+
         self._update()
+
+        if pending_off is not None:
+            self.changes['off'][...] = np.logical_or(self.changes['off'], pending_off)
 
         if np.any(self.changes['on']):
             onbus_idx = [self.system.Bus.idx.v[i] for i in np.nonzero(self.changes["on"])[0]]
